@@ -223,7 +223,7 @@ MON_EXPRS = {
     "c05": "first_bad c05_obs_ok 0 (obs_of (snd @CASE@))",
     "noop": "noop_trace_bad 0 (ms_k (fst @CASE@)) (observe_m (fst @CASE@) IONone) (ksteps (snd @CASE@))",
     "c04": "c04_trace_ok (k_init_h (ms_k (fst @CASE@))) None (obs_of (snd @CASE@))",
-    "c07": "first_bad (c07_obs_ok (let v := k_init_vs (ms_k (fst @CASE@)) in TL [TB (vs_pkh v); TB (vs_vph v); TL (map TN (vs_keys v)); TL (map TN (vs_pows v))])) 0 (obs_of (snd @CASE@))",
+    "c07": "first_bad (c07_obs_ok (k_init_h (ms_k (fst @CASE@))) (let v := k_init_vs (ms_k (fst @CASE@)) in TL [TB (vs_pkh v); TB (vs_vph v); TL (map TN (vs_keys v)); TL (map TN (vs_pows v))])) 0 (obs_of (snd @CASE@))",
     "c10obs": "restart_obs_bad c10_restart_obs_ok 2 0 (ms_k (fst @CASE@)) (ksteps (snd @CASE@))",
     "c10obs_shifted": "restart_obs_bad c10_restart_obs_ok 1 0 (ms_k (fst @CASE@)) (ksteps (snd @CASE@))",
     "c10conv": "conv_trace_bad 2 0 (ms_k (fst @CASE@)) (ksteps (snd @CASE@))",
